@@ -14,17 +14,21 @@ RootsOf(Shapes, nb) ==
 ReaderRoots(Shapes, nb) ==
   UNION {{[cls |-> c, sh |-> sh, back |-> "reader", ch |-> g] : g \in {h \in Grids(sh) : NB(h) <= nb},
                                                              c \in {"Signal", "BasebandSignal"}} : sh \in Shapes}
+\* pb.concatenate of several dask reads of ONE reader (one per time chunk), then rechunked
+ReadsRoots(Shapes, nb) ==
+  UNION {{[cls |-> "BasebandSignal", sh |-> sh, back |-> "reads", ch |-> g] :
+            g \in {h \in Grids(sh) : NB(h) <= nb /\ Len(h[1]) >= 2}} : sh \in Shapes}
 ShapesUpTo(n, c, p) == {<<i, j, k>> : i \in 1..n, j \in 1..c, k \in 1..p}
 
 CoreOps == {
   O("tslice", <<1, None, None>>), O("tslice", <<None, -1, None>>), O("tslice", <<None, None, 2>>),
   O("tslice", <<1, 3, None>>),
   O("fslice", <<1, None>>), O("fslice", <<None, -1>>),
-  O("ufunc", <<>>), O("iufunc", <<>>), O("map_blocks", <<>>), O("map_blocks_col", <<>>), O("to_intensity", <<>>),
+  O("ufunc", <<>>), O("iufunc", <<>>), O("map_blocks", <<0>>), O("map_blocks", <<2>>), O("map_blocks_col", <<>>), O("to_intensity", <<>>),
   O("stokes_item", <<0>>), O("stokes_item", <<3>>), O("to_stokes", <<>>), O("to_circular", <<>>),
   O("time_shift", <<0, 4>>), O("time_shift", <<1, -6>>), O("time_shift", <<0, 1>>),
   O("time_shift", <<1, 5, -4>>), O("time_shift", <<0, 2, 0, -3>>),
-  O("freq_shift", <<3>>), O("freq_shift", <<-4>>),
+  O("freq_shift", <<3>>), O("freq_shift", <<-4>>), O("freq_shift", <<3, -4>>), O("freq_shift", <<2, -3, 5>>),
   O("coh_dd", <<3, -2>>), O("coh_dd", <<0, 5>>),
   O("incoh_dd", <<0, 1>>), O("incoh_dd", <<-1, 1>>), O("incoh_dd", <<0, 0>>),
   O("splitcat", <<1, 1>>), O("splitcat", <<1, 2>>), O("splitcat", <<2, 1>>),
@@ -34,16 +38,16 @@ CoreOps == {
   O("to_dask", <<>>)}
 
 \* quick: every shape up to 3 x 2 x 2 and 4 x 1 x 1, all grids, depth 2
-Q_Roots == RootsOf({<<2, 2, 2>>, <<3, 2, 1>>, <<4, 1, 1>>}, 4) \cup ReaderRoots({<<4, 2, 1>>}, 4)
+Q_Roots == RootsOf({<<2, 2, 2>>, <<3, 2, 1>>, <<4, 1, 1>>}, 4) \cup ReaderRoots({<<4, 2, 1>>}, 4) \cup ReadsRoots({<<4, 2, 1>>}, 4)
 \* quick, all schedules: depth 1
-QS_Roots == RootsOf({<<2, 2, 2>>, <<4, 2, 1>>}, 4)
+QS_Roots == RootsOf({<<2, 2, 2>>, <<4, 2, 1>>}, 4) \cup ReadsRoots({<<4, 2, 1>>, <<3, 1, 1>>}, 4)
 \* pipelines with runs in the middle (persist -> operation -> compute ...)
 R_Ops == {O("tslice", <<1, None, None>>), O("ufunc", <<>>), O("iufunc", <<>>), O("fft_axis", <<1>>), O("time_shift", <<1, -6>>), O("to_stokes", <<>>),
           O("coh_dd", <<3, -2>>), O("rechunk", <<1>>), O("splitcat", <<1, 1>>)}
 F2_Roots == RootsOf(ShapesUpTo(3, 2, 2) \cup {<<4, 1, 1>>, <<4, 2, 1>>, <<4, 3, 1>>, <<4, 1, 2>>}, 4)
 Q_Ops == CoreOps
 \* full: N <= 4, c <= 3, p <= 2
-F_Roots == RootsOf(ShapesUpTo(4, 3, 2), 12) \cup ReaderRoots({<<4, 2, 1>>, <<3, 1, 2>>, <<4, 3, 1>>}, 12)
+F_Roots == RootsOf(ShapesUpTo(4, 3, 2), 12) \cup ReaderRoots({<<4, 2, 1>>, <<3, 1, 2>>, <<4, 3, 1>>}, 12) \cup ReadsRoots({<<4, 2, 1>>, <<3, 1, 2>>}, 6)
 F_Ops == CoreOps
 FS_Roots == F2_Roots
 \* negative instances
@@ -60,15 +64,15 @@ S_Ops == {O("time_shift", <<1, 5, -4>>), O("coh_dd", <<3, -2>>), O("to_stokes", 
 \* behaviour generation
 G_Ops == {
   O("tslice", <<1, None, None>>), O("tslice", <<None, None, 2>>), O("tslice", <<1, 3, None>>),
-  O("fslice", <<1, None>>), O("ufunc", <<>>), O("iufunc", <<>>), O("map_blocks", <<>>), O("map_blocks_col", <<>>),
+  O("fslice", <<1, None>>), O("ufunc", <<>>), O("iufunc", <<>>), O("map_blocks", <<0>>), O("map_blocks", <<2>>), O("map_blocks_col", <<>>),
   O("to_intensity", <<>>), O("stokes_item", <<3>>), O("to_stokes", <<>>), O("to_circular", <<>>),
   O("time_shift", <<0, 4>>), O("time_shift", <<1, -6>>), O("time_shift", <<1, 5, -4>>),
-  O("freq_shift", <<3>>), O("coh_dd", <<3, -2>>), O("incoh_dd", <<-1, 1>>),
+  O("freq_shift", <<3>>), O("freq_shift", <<3, -4>>), O("coh_dd", <<3, -2>>), O("incoh_dd", <<-1, 1>>),
   O("splitcat", <<1, 2>>), O("splitcat", <<2, 1>>), O("fft_axis", <<1>>), O("fft_axis", <<2>>),
   O("stft", <<2>>), O("istft", <<2>>), O("rechunk", <<0>>), O("rechunk", <<1>>), O("rechunk", <<2>>),
   O("to_dask", <<>>)}
-G1_Roots == RootsOf(ShapesUpTo(4, 3, 2), 8) \cup ReaderRoots({<<4, 2, 1>>, <<3, 1, 2>>, <<4, 3, 1>>, <<2, 2, 2>>}, 8)
-G1Q_Roots == RootsOf(ShapesUpTo(3, 2, 2) \cup {<<4, 3, 1>>, <<4, 1, 2>>}, 6) \cup ReaderRoots({<<4, 2, 1>>, <<3, 1, 2>>}, 6)
+G1_Roots == RootsOf(ShapesUpTo(4, 3, 2), 8) \cup ReaderRoots({<<4, 2, 1>>, <<3, 1, 2>>, <<4, 3, 1>>, <<2, 2, 2>>}, 8) \cup ReadsRoots({<<4, 2, 1>>, <<3, 1, 2>>, <<4, 3, 1>>}, 8)
+G1Q_Roots == RootsOf(ShapesUpTo(3, 2, 2) \cup {<<4, 3, 1>>, <<4, 1, 2>>}, 6) \cup ReaderRoots({<<4, 2, 1>>, <<3, 1, 2>>}, 6) \cup ReadsRoots({<<4, 2, 1>>, <<3, 1, 2>>}, 6)
 G2_Roots == RootsOf({<<2, 2, 2>>, <<4, 2, 1>>, <<3, 3, 1>>, <<4, 1, 2>>}, 4)
 G2Q_Roots == RootsOf({<<2, 2, 2>>, <<4, 2, 1>>}, 2) \cup ReaderRoots({<<4, 2, 1>>}, 2)
 \* negative instances: per-block reads; in-place FFT tasks on blocks the graph holds
@@ -83,5 +87,9 @@ GR_Roots == {[cls |-> "BasebandSignal", sh |-> <<4, 2, 1>>, back |-> b, ch |-> g
             \cup {[cls |-> "BasebandSignal", sh |-> <<4, 2, 1>>, back |-> "dask", ch |-> <<<<4>>, <<1, 1>>, <<1>>>>],
                   [cls |-> "BasebandSignal", sh |-> <<4, 2, 1>>, back |-> "np", ch |-> Single(<<4, 2, 1>>)]}
 GR_Ops == {O("ufunc", <<>>), O("iufunc", <<>>), O("fft_axis", <<1>>), O("time_shift", <<1, -6>>)}
+\* negative instances, round 3
+N_KwOps == {O("map_blocks", <<0>>), O("map_blocks", <<2>>)}
+N_VecOps == {O("freq_shift", <<3, -4>>)}
+N_ReadsRoots == ReadsRoots({<<4, 2, 1>>}, 2)
 None_ == {}
 =============================================================================
